@@ -2,6 +2,7 @@ package cluster_info
 
 import (
 	v1 "k8s.io/api/core/v1"
+	resourceapi "k8s.io/api/resource/v1"
 	"k8s.io/apimachinery/pkg/api/resource"
 	metav1 "k8s.io/apimachinery/pkg/apis/meta/v1"
 	"k8s.io/apimachinery/pkg/labels"
@@ -31,7 +32,7 @@ func (l *c12Lister) ListBindRequests() ([]*schedulingv1alpha2.BindRequest, error
 // request is gone its pod is charged to the selected node (idle reduced by the request, GPU groups
 // attached); a request for a node that no longer exists is handed to deletion and its pod is
 // schedulable again; IsFailed() is exactly "phase Failed and the retry budget is used up".
-// BOUND: one pending pod (cpu request symbolic milli-cpu < 2^20, optionally a fraction pod with one selected GPU group), one node with symbolic cpu (or the selected node deleted); BindRequest phase Pending/Failed/Succeeded, failedAttempts and backoffLimit (nil or any int32) symbolic
+// BOUND: one pending pod (cpu request symbolic milli-cpu < 2^20, optionally a fraction pod with one selected GPU group, optionally a DRA claim whose object is named like the pod's claim reference or generated from a template), one node with symbolic cpu (or the selected node deleted); BindRequest phase Pending/Failed/Succeeded, failedAttempts and backoffLimit (nil or any int32) symbolic
 func VerifC12_SnapshotChargesPendingBindRequest() {
 	vm := resource_info.NewResourceVectorMap()
 	nodeCpu := vr.AnyFloatNat("node.cpu", 24)
@@ -64,13 +65,33 @@ func VerifC12_SnapshotChargesPendingBindRequest() {
 		l := vr.AnyInt32("backoffLimit", 32)
 		br.Spec.BackoffLimit = &l
 	}
+	// a device claimed through DRA: the pod-level claim reference "gpu" points at a ResourceClaim object
+	// that has the same name or (claims generated from a template) a different one; the BindRequest
+	// carries the devices the scheduler chose, the claim object is not allocated in the API yet
+	var claims []*resourceapi.ResourceClaim
+	claimKind := vr.Choose("draClaim", 3) // 0 none, 1 claim object named like the reference, 2 generated from a template
+	if claimKind > 0 {
+		objName := "gpu"
+		if claimKind == 2 {
+			objName = "p-gpu-x7k2q"
+			tmpl := "gpu-template"
+			pod.Spec.ResourceClaims = []v1.PodResourceClaim{{Name: "gpu", ResourceClaimTemplateName: &tmpl}}
+			pod.Status.ResourceClaimStatuses = []v1.PodResourceClaimStatus{{Name: "gpu", ResourceClaimName: &objName}}
+		} else {
+			pod.Spec.ResourceClaims = []v1.PodResourceClaim{{Name: "gpu", ResourceClaimName: &objName}}
+		}
+		claims = []*resourceapi.ResourceClaim{{ObjectMeta: metav1.ObjectMeta{Name: objName, Namespace: "ns", UID: "uid-claim"},
+			Status: resourceapi.ResourceClaimStatus{ReservedFor: []resourceapi.ResourceClaimConsumerReference{{Resource: "pods", Name: "p", UID: "uid-p"}}}}}
+		br.Spec.ResourceClaimAllocations = []schedulingv1alpha2.ResourceClaimAllocation{{Name: "gpu", Allocation: &resourceapi.AllocationResult{
+			Devices: resourceapi.DeviceAllocationResult{Results: []resourceapi.DeviceRequestAllocationResult{{Request: "r", Driver: "gpu.nvidia.com", Pool: "n1", Device: "dev-1"}}}}}}
+	}
 	c := &ClusterInfo{dataLister: &c12Lister{brs: []*schedulingv1alpha2.BindRequest{br}}, nodePoolSelector: labels.Everything()}
 	brMap, forDeleted, err := c.snapshotBindRequests(nodes)
 	if err != nil {
 		vr.Assert(false, "C12.snapshot-of-bind-requests-succeeds")
 	}
 	existing := map[common_info.PodID]*pod_info.PodInfo{}
-	if _, err := c.addTasksToNodes([]*v1.Pod{pod}, existing, nodes, brMap, nil, vm); err != nil {
+	if _, err := c.addTasksToNodes([]*v1.Pod{pod}, existing, nodes, brMap, claims, vm); err != nil {
 		vr.Assert(false, "C12.snapshot-of-pods-succeeds")
 	}
 	pi := existing["uid-p"]
@@ -100,6 +121,11 @@ func VerifC12_SnapshotChargesPendingBindRequest() {
 		}
 		for _, bri := range brMap {
 			vr.Assert(!bri.IsFailed(), "C12.request-is-failed-iff-phase-failed-and-retries-used-up")
+		}
+		if claimKind > 0 {
+			info := pi.ResourceClaimInfo["gpu"]
+			ok := info != nil && info.Allocation != nil && len(info.Allocation.Devices.Results) == 1 && info.Allocation.Devices.Results[0].Device == "dev-1"
+			vr.Assert(ok, "C12.pod-with-live-request-keeps-its-claimed-devices")
 		}
 	} else {
 		vr.Assert(len(forDeleted) == 1 && len(brMap) == 0, "C12.request-for-deleted-node-is-handed-to-deletion")
